@@ -1,5 +1,5 @@
 """C16: promise.Once and memo.MemoizeFunc (specs/once: OnceP monitor, Once and Memo X specs)."""
-import json, os
+import json, os, shutil
 import vlib
 
 PROPS = ["C16"]
@@ -27,6 +27,9 @@ LABEL_RULES = {
 SCEN = {"quick": ["on_q1", "on_q2", "mm_q1"],
         "thorough": ["on_q1", "on_q2", "mm_q1", "on_t1", "on_t2", "on_t3", "mm_t1"]}
 BIG = ["on_b1", "on_b2", "on_b3"]   # thorough: model checked only (graph too large to dump)
+
+
+_TLC_SCHEDS = []   # the edge-cover schedules of the last models() call (reused by x_conformance)
 
 
 def scen_path(n):
@@ -78,12 +81,15 @@ def models(wd, tier, seed):
         names.append(name)
         for i, p in enumerate(paths):
             scheds.append({"name": "%s/%d" % (name, i), "scenario": sc, "labels": p})
+    _TLC_SCHEDS[:] = scheds
     return states, trans, scheds, notes, names
 
 
 FAM = dict(driver="once", specdirs=["once", "lib"], monitor="OncePTrace", property_of=PROPERTY_OF, models=models,
            n_random={"quick": 3000, "thorough": 200000},
            x_specs=["once/Once.tla", "once/Memo.tla"], p_monitor="once/OnceP.tla",
+           advisory=lambda wd, binp, seed, tier: x_conformance(wd, binp, seed, SCEN["quick"] if tier == "quick" else SCEN["thorough"],
+                                                               nsched=60 if tier == "quick" else 4000, nrand=40 if tier == "quick" else 2000),
            assumptions=["OnceP readings R1-R6 (header of OnceP.tla): 'later Resolve' is relative to the first delivery of an error to a caller; "
                         "a cancelled caller racing with a result may return either; liveness judged at controller-detected quiescence; "
                         "the wrapped function is harness-owned (at most maxcalls calls, the last one can only succeed)"])
@@ -91,3 +97,66 @@ FAM = dict(driver="once", specdirs=["once", "lib"], monitor="OncePTrace", proper
 
 def run(prop, tier, seed):
     return vlib.standard_check(prop, tier, seed, FAM)
+
+
+# --------------------------------------------------------------------------- advisory X-level conformance
+
+def x_conformance(wd, binp, seed, names, nsched=60, nrand=40, scheds=None):
+    """Replays executions of each scenario with every controller step logged (-logsteps) through the
+    actions of the X spec itself (OnceXTrace.tla / MemoXTrace.tla): a sample of the TLC edge-cover
+    schedules of that scenario plus seeded random schedules (empty labels) on it.  One harness run and
+    one TLC run per scenario (the scenario is a CONSTANT of X), in parallel.
+    Returns a summary dict (coverage.x_conformance); never a verdict."""
+    import subprocess, random, time
+    from concurrent.futures import ThreadPoolExecutor
+    t0 = time.time()
+    scheds = _TLC_SCHEDS if scheds is None else scheds
+    total = dict(traces=0, events=0, steps=0, drift=0, samples=[])
+
+    def one(name):
+        res = dict(traces=0, events=0, steps=0, drift=0, samples=[])
+        sc = json.load(open(scen_path(name)))
+        memo = sc["kind"] == "memo"
+        mine = [s for s in scheds if s["name"].startswith(name + "/")]
+        random.Random(seed * 7919 + len(mine)).shuffle(mine)
+        xs = [{"name": s["name"], "scenario": sc, "labels": s["labels"]} for s in mine[:nsched]]
+        xs += [{"name": "%s/x%d" % (name, i), "scenario": sc, "labels": []} for i in range(nrand)]
+        sf = os.path.join(wd, "x-%s-scheds.json" % name)
+        json.dump(xs, open(sf, "w"))
+        tf = os.path.join(wd, "x-%s.ndjson" % name)
+        stf = os.path.join(wd, "x-%s.stats.json" % name)
+        p = subprocess.run([binp, "-test.run", "^TestRun$", "-driver", "once", "-out", tf, "-stats", stf, "-sched", sf, "-seed", str(seed), "-logsteps"],
+                           cwd=wd, capture_output=True, text=True)
+        if p.returncode != 0:
+            res["samples"].append("%s: harness failed" % name)
+            return res
+        d = vlib.spec_scratch(wd, "x-" + name, ["once", "lib"])
+        consts = ["Prog <- ScProg", "Outs <- ScOuts", "EagerWake = FALSE"] + ([] if memo else ["MaxCalls = %d" % sc["maxcalls"]])
+        vlib.write_mc(d, "MCX", "MemoXTrace" if memo else "OnceXTrace",
+                      ["ScProg == " + vlib.json2tla(sc["clients"]), "ScOuts == " + tla_set(sc["outs"])],
+                      ["INIT TInit", "NEXT TNext", "CHECK_DEADLOCK FALSE", "CONSTANTS"] + [" " + c for c in consts])
+        vf = os.path.join(d, "verdict.json")
+        r = vlib.run_tlc(d, "MCX", "MCX.cfg", workers=1, timeout=900,
+                         env={"TRACE_FILE": tf, "VERDICT_FILE": vf,
+                              "JAVA_TOOL_OPTIONS": "-DTLA-Library=%s -Xmx3g -Xss256m -Dtlc2.tool.impl.Tool.cdot=true" % vlib.TLA_LIB})
+        if not os.path.exists(vf):
+            res["samples"].append("%s: X-trace validation did not finish: %s %s" % (name, r["error"], r["out"][-300:]))
+            return res
+        v = json.load(open(vf))
+        res["traces"] = len(xs)
+        res["events"] = v["total"]
+        res["steps"] = json.load(open(stf)).get("steps", 0)
+        res["drift"] = len(v["drift"])
+        res["samples"] = ["%s: %s" % (name, json.dumps(x)) for x in v["drift"][:2]]
+        shutil.rmtree(d, ignore_errors=True)
+        return res
+
+    with ThreadPoolExecutor(max_workers=max(1, min(4, vlib.NCPU))) as ex:
+        for res in ex.map(one, [n for n in names if os.path.exists(scen_path(n))]):
+            for k in ("traces", "events", "steps", "drift"):
+                total[k] += res[k]
+            total["samples"] += res["samples"]
+    total["samples"] = total["samples"][:6]
+    total["x_trace_specs"] = ["once/OnceXTrace.tla", "once/MemoXTrace.tla"]
+    total["wall_s"] = round(time.time() - t0, 1)
+    return total
